@@ -70,6 +70,15 @@ def unpack3 (l : List Nat) : R (Nat × Nat × Nat) := match l with | [a, b, c] =
 def toksSet (l : List Token) (k : Nat) (v : Token) : R (List Token) :=
   if k < l.length then .ok (l.set k v) else .error .IndexError
 
+/-- `tokens[-1] = v` -/
+def toksSetLast (l : List Token) (v : Token) : R (List Token) :=
+  match l.reverse with
+  | [] => .error .IndexError
+  | _ :: revInit => .ok (revInit.reverse ++ [v])
+
+/-- `sorted(xs)` for a list of ints -/
+def sortedNat (xs : List Nat) : List Nat := xs.mergeSort (· ≤ ·)
+
 /-- `str(n)` for an int -/
 def strOfInt (n : Int) : Token := (toString n).toList
 
